@@ -227,7 +227,8 @@ EXTRA = {
             "while a classifier stream is still running; the stored annotation is never widened."),
     "C12": (" The generated parameter list has the public positional order and defaults; get_field_types fills its result in dataclasses.fields order." + STATE),
     "C13": (" Membership tests of the value compare with == (no hash container); the stored annotation is never widened; elements of a collection value are checked with is_instance, never bare isinstance; "
-            "InvalidTypes is constructed by the gate only; no memoised function receives live values; no one-shot iterator is kept in a table.") + STATE,
+            "InvalidTypes is constructed by the gate only; no memoised function receives live values; no one-shot iterator is kept in a table; the type stored as "
+            "FieldTypeInfo.resolved_type is the whole resolved annotation (the name stored is never re-bound to get_args / a member of the annotation).") + STATE,
     "C14": (" __post_init__ stores derived (init=False) fields only; a replace() without any registry store cannot restore the entry; accessors are re-installed on "
             "every subclass." + STATE),
     "C15": " The common-source test ranges over all members (no filtered list); no container of an operand is extended in place." + STATE,
